@@ -1,6 +1,7 @@
 import PygVerif.Generated
 import PygVerif.Model.Selector
 import PygVerif.Model.Proto
+import PygVerif.Model.Doc
 /-!
 # Driver — line protocol between the Python harness and the executable model
 
@@ -83,6 +84,20 @@ def step (fields : List String) : String :=
                     ⟨decBool tls, decStr line, decList rest⟩)
      | none => "bad-proto")
   | ["sniff", s] => let (b, r) := sniff (decStr s); encBool b ++ "\t" ++ encStr r
+  | ["copyto", n, bs] =>
+    let b := decStr bs
+    let cs := chunks n.toNat! b
+    encStr cs.flatten ++ "\t" ++ " ".intercalate (cs.map fun c => toString c.length)
+  | ["gplusdoc", size, body] =>
+    encStr (gplusDoc (if size == "!" then none else some size.toNat!) (decStr body))
+  | ["wmlbody", ls] => encStr (wmlBody (decList ls))
+  | ["unwml", s] => let x := decStr s; encList (unwml (x.length + 1) x)
+  | ["entrymime", m, e, d] => encStr (entryMime (decOpt m, decOpt e) (decStr d))
+  | ["httpadjust", m] => encStr (httpAdjust (decOpt m))
+  | ["geminiadjust", m] => encStr (geminiAdjust (decOpt m))
+  | ["wapadjust", m] => let (t, c) := wapAdjust (decOpt m); encStr t ++ "\t" ++ encBool c
+  | ["httpresp", m, lm, ct, body] =>
+    encStr (httpResp (if m == "HEAD" then .head else .get) (decOpt lm) (decStr ct) (decStr body))
   | _ => "bad-op"
 
 partial def loop (h : IO.FS.Stream) (out : IO.FS.Stream) : IO Unit := do
